@@ -3,7 +3,8 @@
 From Coq Require Import ZArith NArith List Bool String Lia.
 From Coq Require Import Floats.SpecFloat.
 From DL Require Import Lib.Bytes Lib.F64 Lua.Syntax Lua.Sem Model.StringLit Model.NumberLit
-  Model.Evaluator Lua.EvalSpec Lua.EvalSpec2 Proof.SemFacts Proof.EvaluatorStore Proof.EvaluatorF64.
+  Model.Evaluator Lua.EvalSpec Lua.EvalSpec2 Proof.SemFacts Proof.EvaluatorStore Proof.EvaluatorF64
+  Proof.EvaluatorCoercion Proof.EvaluatorInv.
 Import ListNotations.
 Open Scope N_scope.
 Local Notation llen := List.length.
@@ -57,3 +58,179 @@ Proof.
   - rewrite eval_S_typecast in H. inv_ok H. subst; reflexivity.
   - rewrite eval_S_typeinst in H. inv_ok H. subst; reflexivity.
 Qed.
+
+(** * [evaluate_sound] and [pure_sound] *)
+
+Theorem evaluate_sound : forall d e n rho va s vs s',
+  deep_safe d e = true -> ctor_pure d e = true -> env_plain s ->
+  eval d n rho va e s = Ok vs s' ->
+  lv_matches s' (evaluate e) (first vs).
+Proof.
+  intros d e n rho va s vs s' Hd Hc He H.
+  unfold deep_safe in Hd. apply andb_true_iff in Hd as [Hd _].
+  destruct (evaluate e) eqn:E; try exact I; rewrite <- E;
+    (eapply lv_ok_matches;
+     eapply (proj1 (main_all d n) true e rho va s vs s'); [|exact He|exact H];
+     cbn [Hyp]; unfold HypK; split; [exact Hd|split; [exact Hc|congruence]]).
+Qed.
+
+Theorem pure_sound : forall d e n rho va s vs s',
+  has_side_effects false e = false -> deep_safe d e = true -> env_plain s ->
+  eval d n rho va e s = Ok vs s' -> store_extends s s'.
+Proof.
+  intros d e n rho va s vs s' Hs Hd He H.
+  unfold deep_safe in Hd. apply andb_true_iff in Hd as [Hd Ht].
+  eapply (proj1 (main_all d n) false e rho va s vs s'); [|exact He|exact H].
+  cbn [Hyp]. unfold HypP. auto.
+Qed.
+
+(** a pure expression is moreover described by its static value (no [ctor_pure] needed) *)
+Theorem pure_evaluate_sound : forall d e n rho va s vs s',
+  has_side_effects false e = false -> deep_safe d e = true -> env_plain s ->
+  eval d n rho va e s = Ok vs s' -> lv_matches s' (evaluate e) (first vs).
+Proof.
+  intros d e n rho va s vs s' Hs Hd He H.
+  unfold deep_safe in Hd. apply andb_true_iff in Hd as [Hd Ht].
+  eapply lv_ok_matches.
+  eapply (proj1 (main_all d n) false e rho va s vs s'); [|exact He|exact H].
+  cbn [Hyp]. unfold HypP. auto.
+Qed.
+
+(** * Witnesses: the carve-outs are necessary *)
+
+Definition b (s : string) : bytes := of_string s.
+Definition num (x : f64) : expr := ENumber (NDec (to_bits x) None).
+Definition n_0_1 : f64 := of_decimal_c false 1 (-1).
+Definition n_0_2 : f64 := of_decimal_c false 2 (-1).
+
+Lemma env_plain_initial orc : env_plain (initial_store orc).
+Proof.
+  split.
+  - eexists. split; [reflexivity|reflexivity].
+  - eexists. split; [reflexivity|reflexivity].
+Qed.
+
+Definition ok_vs (r : res (list value)) : list value := match r with Ok vs _ => vs | _ => [] end.
+Definition ok_st (s : store) (r : res (list value)) : store := match r with Ok _ s' => s' | _ => s end.
+
+(** [(0.1 + 0.2) .. ""]: Rust prints 0.30000000000000004, Lua 5.1 prints 0.3 ([%.14g]) *)
+Definition e_concat : expr := EBinary BConcat (EBinary BAdd (num n_0_1) (num n_0_2)) (EString []).
+
+Theorem evaluate_sound_refuted_dialect : exists d e n rho va s vs s',
+  ctor_pure d e = true /\ env_plain s /\ eval d n rho va e s = Ok vs s' /\
+  ~ lv_matches s' (evaluate e) (first vs).
+Proof.
+  set (s := initial_store []). set (r := eval L51 10 [] [] e_concat s).
+  exists L51, e_concat, 10%nat, [], [], s, (ok_vs r), (ok_st s r).
+  split; [reflexivity|]. split; [apply env_plain_initial|]. split; [vm_compute; reflexivity|].
+  vm_compute. intros E. discriminate E.
+Qed.
+
+(** [5 % (1/0)]: darklua folds with a - b*floor(a/b) = nan, Luau computes fmod = 5 *)
+Definition e_mod : expr :=
+  EBinary BMod (num (of_Z 5)) (EBinary BDiv (num (of_Z 1)) (num (of_Z 0))).
+
+Theorem evaluate_sound_refuted_mod : exists d e n rho va s vs s',
+  ctor_pure d e = true /\ concat_safe d e = true /\ env_plain s /\ eval d n rho va e s = Ok vs s' /\
+  ~ lv_matches s' (evaluate e) (first vs).
+Proof.
+  set (s := initial_store []). set (r := eval Luau 10 [] [] e_mod s).
+  exists Luau, e_mod, 10%nat, [], [], s, (ok_vs r), (ok_st s r).
+  split; [reflexivity|]. split; [reflexivity|]. split; [apply env_plain_initial|].
+  split; [vm_compute; reflexivity|].
+  vm_compute. intros E. discriminate E.
+Qed.
+
+(** an interpolated string [`{ ({ (function() getmetatable("").__tostring = function() return "evil" end end)() } and "x") }`]:
+    the entry of the table constructor installs [__tostring] in the string metatable
+    before the sibling "x" is rendered *)
+Definition fb (blk : block) : fbody := FBody [] false None None None 0 blk.
+Definition f_evil : expr := EFunction (fb (Block [] (Some (LReturn [EString (b "evil")])))).
+Definition f_tamper : expr :=
+  EFunction (fb (Block [SAssign [EField (ECall (EIdent (b "getmetatable")) None (AString [])) (b "__tostring")]
+                               [f_evil]] None)).
+Definition e_tamper : expr :=
+  EInterp [ISExpr (EBinary BAnd (ETable [TValue (ECall f_tamper None (ATuple []))]) (EString (b "x")))].
+
+Theorem evaluate_sound_refuted_ctor : exists d e n rho va s vs s',
+  deep_safe d e = true /\ env_plain s /\ eval d n rho va e s = Ok vs s' /\
+  ~ lv_matches s' (evaluate e) (first vs).
+Proof.
+  set (s := initial_store []). set (r := eval L51 30 [] [] e_tamper s).
+  exists L51, e_tamper, 30%nat, [], [], s, (ok_vs r), (ok_st s r).
+  split; [reflexivity|]. split; [apply env_plain_initial|]. split; [vm_compute; reflexivity|].
+  vm_compute. intros E. discriminate E.
+Qed.
+
+(** [((0.1 + 0.2) .. "" == "0.3") and ext_f()]: statically the comparison is false, so the
+    call is believed dead; under Lua 5.1 it is true and the call runs *)
+Definition e_dead_call : expr :=
+  EBinary BAnd (EBinary BEq e_concat (EString (b "0.3"))) (ECall (EIdent (b "ext_f")) None (ATuple [])).
+
+Theorem pure_sound_refuted_dialect : exists d e n rho va s vs s',
+  has_side_effects false e = false /\ env_plain s /\ eval d n rho va e s = Ok vs s' /\
+  ~ store_extends s s'.
+Proof.
+  set (s := initial_store []). set (r := eval L51 20 [] [] e_dead_call s).
+  exists L51, e_dead_call, 20%nat, [], [], s, (ok_vs r), (ok_st s r).
+  split; [vm_compute; reflexivity|]. split; [apply env_plain_initial|]. split; [vm_compute; reflexivity|].
+  intros (Ht & _). vm_compute in Ht. discriminate Ht.
+Qed.
+
+(** the same inside a table constructor: [dialect_safe] alone (which stops at table
+    constructors) does not suffice, [deep_safe] is needed *)
+Theorem pure_sound_refuted_shallow : exists d e n rho va s vs s',
+  has_side_effects false e = false /\ dialect_safe d e = true /\ env_plain s /\
+  eval d n rho va e s = Ok vs s' /\ ~ store_extends s s'.
+Proof.
+  set (s := initial_store []). set (e := ETable [TValue e_dead_call]). set (r := eval L51 20 [] [] e s).
+  exists L51, e, 20%nat, [], [], s, (ok_vs r), (ok_st s r).
+  split; [vm_compute; reflexivity|]. split; [reflexivity|]. split; [apply env_plain_initial|].
+  split; [vm_compute; reflexivity|].
+  intros (Ht & _). vm_compute in Ht. discriminate Ht.
+Qed.
+
+(** * Satisfiability: the hypotheses hold of a non-trivial expression that evaluates *)
+
+(** [("1" .. "0") + 1 == 11 and not nil] *)
+Definition e_example : expr :=
+  EBinary BAnd
+    (EBinary BEq (EBinary BAdd (EBinary BConcat (EString (b "1")) (EString (b "0"))) (num (of_Z 1)))
+                 (num (of_Z 11)))
+    (EUnary UNot ENil).
+
+Example evaluator_example :
+  let s := initial_store [] in
+  deep_safe L51 e_example = true /\ deep_safe Luau e_example = true /\
+  ctor_pure L51 e_example = true /\ ctor_pure Luau e_example = true /\
+  has_side_effects false e_example = false /\ env_plain s /\
+  evaluate e_example = LTrue /\
+  (exists s', eval L51 20 [] [] e_example s = Ok [VBool true] s') /\
+  (exists s', eval Luau 20 [] [] e_example s = Ok [VBool true] s').
+Proof.
+  cbv zeta. repeat split; try (vm_compute; reflexivity); try apply env_plain_initial.
+  - eexists. vm_compute. reflexivity.
+  - eexists. vm_compute. reflexivity.
+Qed.
+
+(** a table constructor with pure entries, an if-expression and an interpolated string *)
+Definition e_example2 : expr :=
+  EInterp [ISStr (b "v="); ISExpr (EIf [EBranch (EBinary BLt (num (of_Z 1)) (num (of_Z 2)))
+                                               (EBinary BAnd (ETable [TValue (EIdent (b "x")); TField (b "k") (EString (b "v"))])
+                                                             (EString (b "yes")))]
+                                       (EString (b "no")))].
+
+Example evaluator_example2 :
+  let s := initial_store [] in
+  deep_safe L51 e_example2 = true /\ ctor_pure L51 e_example2 = true /\
+  has_side_effects false e_example2 = false /\ env_plain s /\
+  evaluate e_example2 = LString (b "v=yes") /\
+  (exists s', eval L51 20 [] [] e_example2 s = Ok [VStr (b "v=yes")] s').
+Proof.
+  cbv zeta. repeat split; try (vm_compute; reflexivity); try apply env_plain_initial.
+  eexists. vm_compute. reflexivity.
+Qed.
+
+Print Assumptions single_sound.
+Print Assumptions evaluate_sound.
+Print Assumptions pure_sound.
